@@ -320,6 +320,53 @@ func valueFacts(info *types.Info, root ast.Node) *FactSpec {
 	}
 	effects := func(n ast.Node) []Effect {
 		var out []Effect
+		// a panicking payload assertion x.v.(T) that is evaluated unconditionally by this node: afterwards
+		// x is known, non-null and unmarked (the assertion would have panicked on nil, the unknown sigil or a marker)
+		if _, isBlockish := n.(*ast.BlockStmt); !isBlockish {
+			commaOK := map[*ast.TypeAssertExpr]bool{}
+			if as, ok := n.(*ast.AssignStmt); ok && len(as.Lhs) == 2 && len(as.Rhs) == 1 {
+				if ta, ok := ast.Unparen(as.Rhs[0]).(*ast.TypeAssertExpr); ok {
+					commaOK[ta] = true
+				}
+			}
+			if vs, ok := n.(*ast.ValueSpec); ok && len(vs.Names) == 2 && len(vs.Values) == 1 {
+				if ta, ok := ast.Unparen(vs.Values[0]).(*ast.TypeAssertExpr); ok {
+					commaOK[ta] = true
+				}
+			}
+			var walk func(x ast.Node)
+			walk = func(x ast.Node) {
+				ast.Inspect(x, func(m ast.Node) bool {
+					switch y := m.(type) {
+					case *ast.FuncLit:
+						return false
+					case *ast.BinaryExpr:
+						if y.Op == token.LAND || y.Op == token.LOR {
+							walk(y.X) // the right operand is evaluated conditionally
+							return false
+						}
+					case *ast.TypeAssertExpr:
+						if y.Type == nil || commaOK[y] {
+							return true
+						}
+						if sk := subjKey(info, y.X); strings.HasSuffix(sk, ".v") {
+							tn := namedType(info.TypeOf(y.Type))
+							if tn != "cty.marker" && tn != "cty.unknownType" {
+								subj := strings.TrimSuffix(sk, ".v")
+								out = append(out, Effect{Assert: &Fact{"notnull", subj}}, Effect{Assert: &Fact{"known", subj}}, Effect{Assert: &Fact{"unmarked", subj}})
+							}
+						}
+					}
+					return true
+				})
+			}
+			switch st := n.(type) {
+			case *ast.IfStmt, *ast.ForStmt, *ast.SwitchStmt, *ast.TypeSwitchStmt, *ast.RangeStmt, *ast.CaseClause:
+				_ = st // compound statements never appear as cfg nodes
+			default:
+				walk(n)
+			}
+		}
 		switch s := n.(type) {
 		case *ast.ExprStmt:
 			if recv, key, call := methodOn(s.X); call != nil && key == "cty.Value.assertUnmarked" {
